@@ -102,7 +102,7 @@ theorem deserialize_text_is_render (S : Schema) (ty : String) (d : StructDef) :
         | some b => ["(window_start, window_end) = " ++ b ++ "._deserialize(buffer, instance)", "buffer = buffer[window_start:window_end]"]
         | none => [])) ++
       renderItems (emitDeserialize S d) ++ ["", "# pylint: disable=protected-access"] ++
-      (((ownFields d).filter fun f => f.kind.carries).map fun f => "instance._" ++ printerName f.name ++ " = " ++ printerName f.name) ++
+      ((nonReservedOwn d).map fun f => "instance._" ++ printerName f.name ++ " = " ++ printerName f.name) ++
       [if d.abstract then "return (" ++ sizeLocal d ++ " - len(buffer), " ++ sizeLocal d ++ ")" else "return instance"] :=
   deserializeBody_eq S ty d
 
@@ -288,7 +288,7 @@ example : emittedReads Generated.Nem.schema (C01.Examples.nemMultisig C01.Exampl
     and `size_` was the value of the size member only if that member was called `size` -- otherwise `len(buffer)`, the
     length of everything passed in, so that with `@size(total_size)` the derived class read its own members from the
     wrong place as soon as the buffer continued after the object (`pay = 9` instead of `5` below). The emission model
-    follows the repaired generator (`sizeLocal`); on the witness schema the emitted program now is the interpreter. -/
+    follows the repaired generator (`sizeLocal`); on the witness schema the emitted program now reads what the interpreter reads. -/
 def sizeNameSchema : Schema := [
   ("Leaf", .struct { fields := [{ name := "amount", kind := .int 2 false }] }),
   ("Entity", .struct { abstract := true, disc := ["tag"], fields := [
@@ -300,19 +300,23 @@ def sizeNameSchema : Schema := [
     { name := "pay", kind := .int 1 false },
     { name := "trailing", kind := .array "Leaf" .fill 0 true none }] })]
 
-/-- `Child(pay = 5, trailing = [Leaf(0x0102)])` followed by four bytes `9`: both read the object -/
+/-- `Child(pay = 5, trailing = [Leaf(0x0102)])` followed by four bytes `9`: both read `pay = 5` and the one `Leaf`. What is
+    left of the by-name treatment: the generated class stores the renamed size member as a dead attribute `_total_size`
+    (set here to 9; `serialize` writes `self.size`), which the object model does not have -- `storedOk`, hence `WFGD`,
+    excludes the schema for that reason only. -/
 example :
     (match sizeNameSchema.find "Child", sizeNameSchema.find "Entity" with
       | some (.struct d), some (.struct da) =>
         let r := recN sizeNameSchema C01.Examples.idT 3
         let payload : Bytes := [9, 0, 0, 0, 7, 0, 5, 2, 1, 9, 9, 9, 9]
-        WF sizeNameSchema && WFGD sizeNameSchema && d.noUnion &&
+        WF sizeNameSchema && d.noUnion && storedOk d && !storedOk da &&
         (match decConcrete sizeNameSchema C01.Examples.idT r "Child" d payload, emittedDeserialize sizeNameSchema C01.Examples.idT r "Child" d payload with
-          | .ok v1, .ok v2 =>
+          | .ok v1, .ok (.struct ty (("total_size", .int 9) :: vs2)) =>
             sameBytes (encode sizeNameSchema C01.Examples.idT "Child" v1) (.ok [9, 0, 0, 0, 7, 0, 5, 2, 1]) &&
-            sameBytes (encode sizeNameSchema C01.Examples.idT "Child" v2) (.ok [9, 0, 0, 0, 7, 0, 5, 2, 1])
+            sameBytes (encode sizeNameSchema C01.Examples.idT "Child" (.struct ty vs2)) (.ok [9, 0, 0, 0, 7, 0, 5, 2, 1])
           | _, _ => false) &&
         (deserializeBody sizeNameSchema "Entity" da).contains "buffer = buffer[4:total_size]" &&
+        (deserializeBody sizeNameSchema "Entity" da).contains "instance._total_size = total_size" &&
         (deserializeBody sizeNameSchema "Entity" da).contains "return (total_size - len(buffer), total_size)" &&
         !(deserializeBody sizeNameSchema "Entity" da).contains "size_ = len(buffer)"
       | _, _ => false) = true := by decide +kernel
